@@ -609,12 +609,17 @@ def run_c16(tier, seed, replay=None):
         if cnt["WALK"] == 0:
             raise Inconclusive("VecCache model emitted no walks")
         total = cnt["WALK"]
+        # non-vacuity: the variant whose second look-up hands out the index without a reference must be refuted
+        o2, st2 = tlc(sc, "VecCache", cfg="VecCacheUncounted.cfg", workers=4, timeout=600, outname="vc2.out")
+        if not any("is violated" in e for e in tlc_errors(o2)):
+            raise Inconclusive("VecCache model does not refute the uncounted second look-up")
+        os.remove(o2)
         if replay:
             obj = json.load(open(replay))
             with open(sc.path("walks.ndjson"), "w") as fh:
                 fh.write(json.dumps(obj["diff"]["walk"]) + "\n")
         n = sample_lines(sc.path("walks.ndjson"), 5000 if q else 60000, seed)
-        diffs, tot = [], {"steps": 0, "evictions": 0, "stress_rounds": 0}
+        diffs, tot = [], {"steps": 0, "evictions": 0, "stress_rounds": 0, "gated": 0}
         for exe, walks, rounds, name in ((zx, sc.path("walks.ndjson"), 0, "seq"), (zxr, "/dev/null", 3 if q else 40, "race")):
             p = subprocess.run([exe, "veccache", "-in", walks, "-tables", sc.path("tables.json"), "-dir", sc.path("segs-" + name),
                                 "-out", sc.path("diffs-%s.ndjson" % name), "-n", str(rounds)],
@@ -645,9 +650,11 @@ def run_c16(tier, seed, replay=None):
             lines = fh.readlines()
         cov = {"family": "veccache", "states": st["distinct_states"], "transitions": st["states_generated"],
                "traces_validated_against_impl": n, "samples": [json.loads(lines[-1])],
-               "model": {"module": "VecCache.tla", "cfg": cfg, "invariants": ["HandleSafe", "ClosedOnce", "NoLeak", "RefsExact"], "wall_s": st["wall_s"]},
+               "model": {"module": "VecCache.tla", "cfg": cfg, "invariants": ["HandleSafe", "ClosedOnce", "NoLeak", "RefsExact"], "wall_s": st["wall_s"],
+                         "refuted_variant": "VecCacheUncounted.cfg (Counted = FALSE: the look-up under the write lock takes no reference)"},
+               "lookups_parked_between_their_critical_sections": tot["gated"],
                "walks_emitted": total, "walks_replayed": n, "steps": tot["steps"], "evictions_observed": tot["evictions"], "concurrent_rounds": tot["stress_rounds"],
-               "configurations": "every edge of the VecCache state graph (open with every exclusion bitmap over two documents, filtered or not; search; close handle; expiry tick; segment close) replayed on in-memory and mmap segments with the engine double; engine counters after every step; concurrent searchers with the monitor at 1 ms under -race",
+               "configurations": "every edge of the VecCache state graph (open with every exclusion bitmap over two documents, filtered or not, as two critical sections: a lookup that misses is parked at the verif gate between read-lock and write-lock section while other handles open, close and expire; search; close handle; expiry tick; segment close) replayed on in-memory and mmap segments with the engine double; engine counters after every step; concurrent searchers with the monitor at 1 ms under -race",
                "evaluations": tot["steps"], "distinct_nontrivial": n,
                "rule": "one evaluation = one step of a walk executed on the real cache with counters inspected; distinct = distinct walks", "exhaustive": n == total}
         assumptions = ["the engine double honours the go-faiss contract (native FAISS is absent)", "handles are closed before the segment is closed; a handle is closed once",
